@@ -9,7 +9,7 @@ from flodym import Dimension, DimensionSet, FlodymArray
 NAMES = {"a": "Alpha", "b": "Beta", "c": "Gamma", "d": "Delta", "e": "Epsilon", "t": "Time"}
 
 
-def gen_world(rng, min_dims=3, max_dims=5):
+def gen_world(rng, min_dims=3, max_dims=5, same_name=False):
     n = rng.randint(min_dims, max_dims)
     letters = ["t"] + rng.sample("abcde", n - 1)
     eq = rng.chance(0.5)
@@ -58,6 +58,12 @@ def gen_world(rng, min_dims=3, max_dims=5):
         items = (d["items"] + ["extra_item" if d["dtype"] != "int" else 99999])[:k] if k > len(d["items"]) else d["items"][:k]
         if items != d["items"]:
             dims.append({"letter": d["letter"], "name": d["name"] + "Twin", "items": items, "dtype": d["dtype"], "of": None, "twin": True})
+    if same_name and nbase > 1:
+        # two dimensions of one name under different letters (origin and destination "Region" of a trade matrix): legal, and
+        # only the letter tells them apart
+        i = rng.randint(1, nbase - 1)
+        letter = rng.choice("fgh")
+        dims.append({"letter": letter, "name": dims[i]["name"], "items": [f"{letter}{j}x" for j in range(rng.randint(1, 3))], "dtype": "str", "of": None})
     return {"dims": dims}
 
 
@@ -203,8 +209,8 @@ def build_key(spec, arr, D, OF):
         key = {}
         for n_, (p, v) in enumerate(sorted(chosen.items())):
             d = dims[p]
-            if form == "dict_letter":
-                k = d.letter
+            if form == "dict_letter" or sum(1 for x in dims if x.name == d.name) > 1:
+                k = d.letter  # a name shared by two dimensions of the target does not address either of them
             elif form == "dict_name":
                 k = d.name
             else:
